@@ -424,3 +424,35 @@ pub fn l_spec<T: Scalar>(sig: &[Vec<isize>], x: &[T]) -> Vec<Vec<T>> {
         })
         .collect()
 }
+
+/// exact J function of every subset (recursion J(g) = sum_e J(g\e)/omega(g\e), J(empty)=1)
+pub fn j_table(g: &OGraph, d: usize) -> Vec<BigRational> {
+    let n = g.ne();
+    let mut j = vec![BigRational::zero(); 1 << n];
+    j[0] = BigRational::one();
+    for m in 1u64..(1u64 << n) {
+        let mut acc = BigRational::zero();
+        for e in 0..n {
+            if m >> e & 1 == 1 {
+                let sub = m & !(1u64 << e);
+                acc += &j[sub as usize] / g.omega(sub, d);
+            }
+        }
+        j[m as usize] = acc;
+    }
+    j
+}
+
+/// exact cumulative edge probabilities of subgraph `mask`: (edge, c_k) in index order
+pub fn edge_cdf(g: &OGraph, d: usize, j: &[BigRational], mask: u64) -> Vec<(usize, BigRational)> {
+    let mut out = vec![];
+    let mut acc = BigRational::zero();
+    for e in 0..g.ne() {
+        if mask >> e & 1 == 1 {
+            let sub = mask & !(1u64 << e);
+            acc += &j[sub as usize] / (&j[mask as usize] * g.omega(sub, d));
+            out.push((e, acc.clone()));
+        }
+    }
+    out
+}
